@@ -91,6 +91,33 @@ def execute(scn: dict, prop: str, aspects, on_step=None, send_strict=(1,), keep=
                     disc = model.check_send(tuple(op[1]), op[2] if len(op) > 2 else True, obs, strict_cmds=send_strict)
                 elif kind == "relisten":
                     w.relisten()
+                elif kind == "restart":
+                    if w.disk is not None:
+                        seen = w.restart(bool(op[1]) if len(op) > 1 else False)
+                        res.probes["process_restart"] += 1
+                        # a new process: buffers, request markers, reboot flags and the negotiated version are gone;
+                        # the registry is what the file held (the final save ran on a healthy disk)
+                        model.parked.clear()
+                        model.stale_ok.clear()
+                        model.pres_outstanding.clear()
+                        model.pres_maybe.clear()
+                        for node in model.nodes.values():
+                            node["reboot"] = False
+                        model.version, model.proto = None, "1.4"
+                        if cfg.get("pin"):
+                            model.pin(cfg["pin"])
+                        if seen[0] is not None or seen[-1] is not None:
+                            disc.append(("outcome", f"restart-raised:{seen}", str(op)))
+                        if len(seen) == 3 and seen[1] not in ("PersistenceReadError",):
+                            disc.append(("outcome", f"load-fault-not-reported:{seen[1]}", str(op)))
+                        # whatever happened at the failed entry, the registry of the new process must be the saved one
+                        d2: list = []
+                        from .model import Obs
+                        model._check_registry(Obs("ok", nodes=snapshot_nodes(w.gateway)), d2, "after-restart")
+                        disc.extend(d2)
+                elif kind == "other_gateway_imperial":
+                    w.other_gateway_goes_imperial()
+                    res.probes["second_gateway_object"] += 1
                 elif kind == "diskfault":
                     if w.disk is not None:
                         w.disk.fault_on.setdefault(op[1], []).extend(op[2])
